@@ -2,7 +2,7 @@
    (content tables, raw modules lowered by the regenerated dispatch tables, ...) and hands everything else to
    [run_C01] of Model/C01_visitor.v. *)
 From Coq Require Import List ZArith String Ascii Bool Arith.
-From Verif Require Import Lib.Sexp Model.C01_base Gen.C01_tables Gen.C01_dispatch Model.C01_visitor Model.C01_content Model.C01_raw.
+From Verif Require Import Lib.Sexp Model.C01_base Gen.C01_tables Gen.C01_dispatch Model.C01_visitor Model.C01_content Model.C01_raw Model.C01_layout.
 Import ListNotations.
 Open Scope string_scope.
 Open Scope list_scope.
@@ -33,6 +33,19 @@ Definition run_C01_all (s : sexp) : sexp :=
                    | Some b => run_views mname b
                    | None => SList [SStr "unlowered"] end
       | None => bad_input end
+  | SList [SStr "layout"; SStr mname; items] =>
+      (* a module as a layout tree (text lines attached to the statements): the rendered text, the well-formedness
+         verdict, the four views of the statements [number] derives, and every occurrence of a reported span with
+         the verdict of slicing the rendered text by it (theorem C01_slice_reported_span says: always 1) *)
+      match as_list_of (dec_lay 64) items with
+      | Some ls =>
+          let text := render_list ls in
+          SList [SList (map SStr text); of_bool (forallb well_formed ls); run_views mname (number_list 1 ls);
+                 SList (map (enc_occ text) (occ_list 1 ls))]
+      | None => bad_input end
+  | SList [SStr "doc-labels"] =>
+      (* the documented decorator table of theorem C01_decorator_labels_documented *)
+      SList (map (fun p => SList [SStr p; enc_strs (doc_labels p)]) doc_paths)
   | SList [SStr "views"; SStr mname; body] =>
       match dec_body body with Some b => run_views mname b | None => bad_input end
   | _ => run_C01 s
